@@ -23,7 +23,7 @@ def needed_params(prog):
     return sorted(acc)
 
 
-def history(g, solver, needed=(), zeta=False):
+def history(g, solver, needed=(), zeta=False, switch=False):
     r = g.rng
     # non-dyadic values: sums and products are then inexact in floating point, so an order of evaluation
     # that changes with history or hash seed shows in the last bits
@@ -66,6 +66,13 @@ def history(g, solver, needed=(), zeta=False):
         k = r.choice(list(needed))
         calls += [{"call": "set_defaults", "params": d1}, {"call": "run", "solver": solver, "rebuild": False, "params": {a: b for a, b in d1.items() if a != k}},
                   {"call": "set_defaults", "params": d2}, {"call": "run", "solver": solver, "rebuild": False, "params": {a: b for a, b in d2.items() if a != k}}]
+    if switch:
+        # the same object asked for another solver without rebuild=True, and for the first one again
+        other_ = "rk4" if solver == "euler" else "euler"
+        full_ = r.choice(pool)
+        calls += [{"call": "run", "solver": solver, "rebuild": False, "params": full_},
+                  {"call": "run", "solver": other_, "rebuild": False, "params": full_},
+                  {"call": "run", "solver": solver, "rebuild": False, "params": r.choice(pool)}]
     # make sure some call repeats an earlier one after other parameter values were used
     runs = [x for x in calls if x["call"] == "run" and len(x["params"]) == (5 if zeta else 4)]
     if runs:
@@ -92,7 +99,8 @@ def run(tier, seed):
                 o["req"]["params"] = [{"p": "zeta"}] + list(o["req"]["params"][1:])
                 zeta = True
         base = checklib.strip_meta(dict(p, obs=[]))
-        calls = history(g, solver, (["zeta"] if zeta else []) or needed_params(base), zeta)
+        calls = history(g, solver, (["zeta"] if zeta else []) or needed_params(base), zeta,
+                        switch=(not p["nonlinear"]) and g.rng.random() < 0.5)
         p["obs"] = [{"obs": "struct"}, {"obs": "history", "calls": calls, "program": base},
                     {"obs": "oracle", "name": "c11", "calls": calls, "program": base}]
         progs.append(p)
